@@ -318,12 +318,14 @@ def run(ctx):
             ctx.sample({"fn": "calc_cv_vector", "cap": cap, "intfs": list(intfs), "moves_tail": list(mv),
                         "ops": list(ops), "code": cvv})
     # minus paths
+    # incl. a λ₋₁ of exactly 0 (falsy but valid) below a positive first interface
     m_cases = [(b, lm1, ops) for ops in seqs((-3, -2, -1, 0, 1), 4, 0) for b in (0,) for lm1 in (None, -2)]
+    m_cases += [(2, lm1, ops) for ops in seqs((-1, 0, 1, 2, 3), 4, 0) for lm1 in (None, 0, 1)]
     code_m = []
     for (b, lm1, ops) in m_cases:
         p = mk(ops, Path, System)
         try:
-            v = tis.calc_cv_vector(p, [float(b), 2.0, 4.0], ["sh", "sh", "sh"],
+            v = tis.calc_cv_vector(p, [float(b), float(b) + 2.0, float(b) + 4.0], ["sh", "sh", "sh"],
                                    lambda_minus_one=False if lm1 is None else float(lm1), minus=True)
             code_m.append(lst([int(x) for x in v]))
         except Exception as e:  # noqa: BLE001
@@ -339,6 +341,12 @@ def run(ctx):
             if code_m[k] != "1 1":
                 ctx.fail("C10:minus-vector", f"valid [0-] path got {code_m[k]}", {"ops": ops, "bound": b})
             ctx.distinct(("cvm", ops))
+        # λ₋₁ variant: the [0-] weight is 1 iff the path reaches λ₋₁ (a path confined left of λ₀ still counts)
+        if ops and lm1 is not None and not code_m[k].startswith("err"):
+            want = "1 1" if max(ops) >= lm1 else "1 0"
+            if code_m[k] != want:
+                ctx.fail("C10:minus-vector-lambda-minus-one", f"[0-] weight {code_m[k]} with λ₋₁={lm1}, max={max(ops)}: expected {want}",
+                         {"ops": ops, "lambda_minus_one": lm1, "first_interface": b})
     ctx.assumptions += [
         "order values are small integers (exact as floats); ξ values are dyadic so float `c/n >= ξ` equals the rational comparison",
         "IEEE rounding of sum_frames / n_frames is not modelled",
